@@ -245,6 +245,143 @@ func runQScenario(sc *qScenario) *qHistory {
 	return h
 }
 
+// Scenario `stall` (directed + random, every seed): the reader does not read while one producer enqueues WAVES of
+// growing size (sizes around the channel buffer, the initial queue capacity and the sizes a Go slice grows through);
+// between two waves the consumer goroutine has filled the channel buffer and blocks with the rest of what it took
+// from the queue, and the reader takes a few items or none. This is a session that is busy inside a command (its
+// client does not read a large answer) while other sessions commit bursts of changes: State.updatesQueue is
+// NewQueuedChannel(32, 128). Then plain Close and the reader drains: the history must be FIFO and loss-free like any
+// other (queue_fifo_lossfree), which it is not when the consumer's batch and the queue share storage.
+type qStall struct {
+	cap, qcap   int
+	waves       [][]int // per wave: the sizes of consecutive Enqueue calls
+	readBetween []int   // items the reader takes after wave w (before the next one)
+}
+
+func (sc *qStall) String() string {
+	var ws []string
+	for w, wave := range sc.waves {
+		var xs []string
+		for _, n := range wave {
+			xs = append(xs, strconv.Itoa(n))
+		}
+		ws = append(ws, strings.Join(xs, ",")+fmt.Sprintf("(read %d)", sc.readBetween[w]))
+	}
+	return fmt.Sprintf("stall cap=%d queuecap=%d waves=%s then Close, reader drains", sc.cap, sc.qcap, strings.Join(ws, "/"))
+}
+
+func genQStalls(r *Rng) []*qStall {
+	one := func(k int) []int {
+		xs := make([]int, k)
+		for i := range xs {
+			xs[i] = 1
+		}
+		return xs
+	}
+	out := []*qStall{
+		{cap: 32, qcap: 128, waves: [][]int{{33}, {34}, {35}}},
+		{cap: 32, qcap: 128, waves: [][]int{{34}, {65}, {129}}},
+		{cap: 32, qcap: 128, waves: [][]int{{64}, one(40), {70}}},
+		{cap: 32, qcap: 128, waves: [][]int{{1, 60}, {1, 70}}},
+		{cap: 32, qcap: 128, waves: [][]int{{129}, {130}, {257}}},
+		{cap: 32, qcap: 128, waves: [][]int{one(40), {50}, {51}}},
+		{cap: 1, qcap: 8, waves: [][]int{{3}, {5}, {9}}},
+		{cap: 0, qcap: 8, waves: [][]int{{2}, {3}, {4}}},
+		{cap: 2, qcap: 8, waves: [][]int{{9}, {10}, {17}}},
+	}
+	sizes := []int{1, 2, 3, 7, 8, 9, 31, 32, 33, 34, 35, 48, 63, 64, 65, 66, 100, 127, 128, 129, 130, 200, 255, 256, 257}
+	for i := 0; i < 12; i++ {
+		sc := &qStall{cap: Pick(r, []int{0, 1, 2, 4, 32, 32, 32}), qcap: Pick(r, []int{8, 128, 128})}
+		lo := 0
+		for w := r.Range(2, 4); w > 0; w-- {
+			var cand []int
+			for _, x := range sizes {
+				if x > lo {
+					cand = append(cand, x)
+				}
+			}
+			if len(cand) == 0 {
+				break
+			}
+			k := cand[r.Intn(min(len(cand), 8))]
+			lo = k
+			switch r.Intn(4) {
+			case 0:
+				sc.waves = append(sc.waves, one(k))
+			case 1:
+				a := r.Range(1, k)
+				sc.waves = append(sc.waves, []int{a, k - a})
+			default:
+				sc.waves = append(sc.waves, []int{k})
+			}
+		}
+		out = append(out, sc)
+	}
+	for _, sc := range out {
+		for range sc.waves {
+			sc.readBetween = append(sc.readBetween, Pick(r, []int{0, 0, 0, 1, 2, 5}))
+		}
+	}
+	return out
+}
+
+func runQStall(sc *qStall) *qHistory {
+	base := runtime.NumGoroutine()
+	q := async.NewQueuedChannel[int](sc.cap, sc.qcap, nil, "c19stall")
+	h := &qHistory{cap: sc.cap, desc: sc.String()}
+	pending, j := 0, 0
+	for w, wave := range sc.waves {
+		for _, n := range wave {
+			items := make([]int, n)
+			for k := range items {
+				items[k] = j*1000 + k
+			}
+			ret := q.Enqueue(items...)
+			h.batches = append(h.batches, qBatch{p: 0, j: j, n: n, ret: ret, pre: true})
+			pending += n
+			j++
+		}
+		// the consumer fills the channel buffer and blocks holding the next item
+		for k := 0; k < 200 && len(q.GetChannel()) < min(sc.cap, pending); k++ {
+			time.Sleep(250 * time.Microsecond)
+		}
+		time.Sleep(time.Millisecond)
+		for k := 0; k < sc.readBetween[w] && pending > 0; k++ {
+			select {
+			case v := <-q.GetChannel():
+				h.received = append(h.received, v)
+				pending--
+			case <-time.After(2 * time.Second):
+			}
+		}
+		time.Sleep(time.Millisecond)
+	}
+	q.Close()
+	watchdog := time.After(20 * time.Second)
+drain:
+	for {
+		select {
+		case v, ok := <-q.GetChannel():
+			if !ok {
+				h.closedSeen = true
+				break drain
+			}
+			h.received = append(h.received, v)
+		case <-watchdog:
+			break drain
+		}
+	}
+	switch {
+	case !h.closedSeen:
+		h.leak = "reader drained for 20 s after the close call and the channel was never closed (consumer goroutine alive)"
+	case !waitQueue(q, 5*time.Second):
+		h.leak = "channel closed but QueuedChannel.Wait() does not return"
+	case !waitGoroutines(base, 5*time.Second):
+		h.leak = fmt.Sprintf("goroutine count did not return to baseline %d (now %d)", base, runtime.NumGoroutine())
+	}
+	return h
+}
+
 // probe: k items pending, no reader, then close. Returns whether the consumer goroutine exited.
 func runQProbe(cap, k int, discard bool) (exited bool, detail string) {
 	base := runtime.NumGoroutine()
@@ -349,6 +486,7 @@ func runOracleQueue(args []string) int {
 	}
 	var probes []probe
 	var scenarios []*qScenario
+	var stalls []*qStall
 	var recorded []string // histories to re-judge only (replay)
 	var statePending []int
 	if *replay != "" {
@@ -393,6 +531,7 @@ func runOracleQueue(args []string) int {
 		for i := 0; i < *n; i++ {
 			scenarios = append(scenarios, genQScenario(r))
 		}
+		stalls = genQStalls(r.Fork())
 		for _, c := range []int{1, 2, 32} {
 			probes = append(probes,
 				probe{c, c, false}, probe{c, c - 1, false}, // boundary: fits into the buffer -> exits
@@ -424,6 +563,16 @@ func runOracleQueue(args []string) int {
 		} else {
 			res.Stats["hist.Close"]++
 		}
+		if h.leak != "" {
+			addViolation("c19queue: consumer goroutine left behind although the reader drained: "+h.leak, fmt.Sprintf("C19-c19queue-leak-%d.txt", *seed),
+				fmt.Sprintf("oracle c19queue\n# %s\n# %s\n%s\n", h.leak, h.desc, h.judgeLine()))
+		}
+	}
+	for _, sc := range stalls {
+		h := runQStall(sc)
+		hists = append(hists, h)
+		lines = append(lines, h.judgeLine())
+		res.Stats["hist.stalled-reader-bursts"]++
 		if h.leak != "" {
 			addViolation("c19queue: consumer goroutine left behind although the reader drained: "+h.leak, fmt.Sprintf("C19-c19queue-leak-%d.txt", *seed),
 				fmt.Sprintf("oracle c19queue\n# %s\n# %s\n%s\n", h.leak, h.desc, h.judgeLine()))
